@@ -465,6 +465,13 @@ pub fn fam_c09(thorough: bool) -> Vec<Program> {
 						}
 						// two other threads, one on the first and one on the last listed leaf
 						opp.push((vec![Spec::R(arr[0]), Spec::R(arr[n - 1])], vec![vec![acq(1, true, Flavour::Guard, body)], vec![acq(2, true, Flavour::ScopedLent, body)]]));
+						// two other threads on a middle and on a later listed leaf: the back-off bookkeeping (which lock the
+						// acquisition blocked on, how far it got) is exercised with first_index > i > 0
+						for i in 1..n {
+							for k in i + 1..n {
+								opp.push((vec![Spec::R(arr[i]), Spec::R(arr[k])], vec![vec![acq(1, true, Flavour::Guard, body)], vec![acq(2, true, Flavour::Guard, body)]]));
+							}
+						}
 						if n == 2 || thorough {
 							opp.push((vec![Spec::Coll(Kind::Retry, rs(&rev)), Spec::R(arr[n - 1])], vec![vec![acq(1, true, Flavour::Guard, body)], vec![acq(2, false, Flavour::Guard, body)]]));
 						}
